@@ -25,7 +25,7 @@ static const char* tf(bool b) { return b ? "ok true" : "ok false"; }
 struct Opnd { std::string k, w; uvec s; std::vector<int> d; };
 static Opnd opnd(const Args& a, const std::string& p) {
     Opnd o; o.k = get(a,p+"k"); o.w = has(a,p+"w") ? get(a,p+"w") : "plain";
-    o.d = intsi(a,p+"d"); if (o.k=="nd" || o.k=="ndv") o.s = nats(a,p+"s");
+    o.d = intsi(a,p+"d"); if (o.k=="nd" || o.k=="ndv" || o.k=="ndf" || o.k=="ndb") o.s = nats(a,p+"s");
     return o;
 }
 
@@ -58,6 +58,18 @@ template <typename F> static std::string with_opnd(const Opnd& o, F f) {
         if (o.w=="right") { eith_t e{v}; return f(e); }
         if (o.w=="just")  { nmtools_maybe<nd_t> m{v}; return f(m); }
         if (o.w=="nothing") { nmtools_maybe<nd_t> m{nm::meta::Nothing}; return f(m); }
+    } else if (o.k=="ndf") {    // fixed-dimension shape (std::array<size_t,N>), run-time extents
+        switch (o.s.size()) {
+#define CASE(N) case N: { na::ndarray_t<std::vector<int>, std::array<size_t,N>> v; v.resize(o.s); \
+                for (size_t k=0;k<o.d.size() && k<(size_t)nm::size(v);k++) v.data()[k]=o.d[k]; if (o.w=="plain") return f(v); break; }
+            CASE(1) CASE(2) CASE(3)
+#undef CASE
+            default: return "unsupported";
+        }
+    } else if (o.k=="ndb") {    // bounded-dimension shape (static_vector<size_t,4>)
+        na::ndarray_t<std::vector<int>, nmtools_static_vector<size_t,4>> v; v.resize(o.s);
+        for (size_t k=0;k<o.d.size() && k<(size_t)nm::size(v);k++) v.data()[k]=o.d[k];
+        if (o.w=="plain") return f(v);
     } else if (o.k=="ndv") {    // the same logical array, seen through transpose(transpose(.))
         nd_t v = make_nd(o.s, o.d);
         auto t = view::transpose(view::transpose(v));
